@@ -719,13 +719,24 @@ def _get_rotation_and_strain(
     # for example in the case of uniaxial compression and an identity orientation
     # i.e. grain orientation aligned to the coordinate system).
     if np.all(slip_invariants == 0):
-        return np.zeros((3, 3)), 0.0
+        # Without slip the crystal axes only follow the rigid-body rotation of the flow.
+        return (
+            _get_orientation_change(
+                orientation, velocity_gradient, np.zeros((3, 3)), 0.0
+            ),
+            0.0,
+        )
     if phase == MineralPhase.olivine:
         slip_indices = np.argsort(np.abs(slip_invariants / crss))
         # No slip is possible either if the only nonzero invariants belong to slip
         # systems that cannot be activated (infinite CRSS), avoid zero division below.
         if slip_invariants[slip_indices[-1]] / crss[slip_indices[-1]] == 0:
-            return np.zeros((3, 3)), 0.0
+            return (
+                _get_orientation_change(
+                    orientation, velocity_gradient, np.zeros((3, 3)), 0.0
+                ),
+                0.0,
+            )
         slip_rates = _get_slip_rates_olivine(
             slip_invariants,
             slip_indices,
